@@ -139,7 +139,7 @@ harness!(c04_uf_merge_small, 6, {
 
 // a delta with TWO entries (no heap: ArrayMap) merged into a receiver holding one symbolic union: the
 // links of one merge must not invalidate each other (roots change while the delta is applied)
-//@ prop=C02,C04 heavy=1
+//@ prop=C02,C04 heavy=1 mem=16
 harness!(c04_uf_merge_array2, 7, {
     let (mut x, mx) = uf_sym::<1>();
     let (a, b, c, d) = (below(D as u8), below(D as u8), below(D as u8), below(D as u8));
